@@ -200,8 +200,10 @@ macro_rules | `(tactic| keeps_prim) => `(tactic| exact quiet_currentDefmId)
 macro_rules | `(tactic| keeps_prim) => `(tactic| exact quiet_currentDefsetId)
 
 theorem quiet_sameFileDefset : Keeps Quiet sameFileDefset := by unfold sameFileDefset; keeps
+theorem quiet_defDefset : Keeps Quiet defDefset := by unfold defDefset sameFileDefset; keeps
 theorem quiet_indexNameValue (v : PTree) : Keeps Quiet (indexNameValue v) := by unfold indexNameValue; keeps
 macro_rules | `(tactic| keeps_prim) => `(tactic| exact quiet_sameFileDefset)
+macro_rules | `(tactic| keeps_prim) => `(tactic| exact quiet_defDefset)
 macro_rules | `(tactic| keeps_prim) => `(tactic| exact quiet_indexNameValue _)
 end quietPrims
 
@@ -368,7 +370,7 @@ theorem indexDef_quiet (n : PTree) (h : coreDef n = true) : Keeps Quiet (indexDe
       rw [hb] at h
       exact Keeps.bind (indexRecordBody_quiet k rb h) fun _ => quiet_scopesPop
   unfold indexDef
-  refine Keeps.bind quiet_sameFileDefset fun ds => ?_
+  refine Keeps.bind quiet_defDefset fun ds => ?_
   dsimp only
   split
   all_goals first
